@@ -104,10 +104,21 @@ def w_hist(hexes, pool, programs, src):
             t1 = traces[b][i]
             if t0 is None or t1 is None:
                 continue
-            a = [st[2] for st in t0 if st[0] == "e"]
-            c = [st[2] for st in t1 if st[0] == "e"]
+            def view(tr):
+                out = []
+                for st in tr[:-1]:
+                    if st[0] == "e":
+                        out.append(["e", st[2]])
+                    elif st[0] == "s":
+                        out.append(["s", st[2], st[3]])          # return value and eav_errstr after the setup
+                    elif st[0] == "m":
+                        out.append(["m", st[1], st[2]])
+                return out
+            a, c = view(t0), view(t1)
             if a != c:
-                part["viol"].append(("history-records-differ/%s" % b, {"history": " ".join(prog)}, {"idn2": a[:3], b: c[:3]}))
+                k = next((i for i in range(min(len(a), len(c))) if a[i] != c[i]), 0)
+                part["viol"].append(("history-differs/%s/%s-step" % (b, (a[k][0] if k < len(a) else "?")), {"history": " ".join(prog)},
+                                     {"idn2": a[k:k + 2], b: c[k:k + 2]}))
     part["distinct"] = len(programs)
     if programs:
         part["samples"].append({"source": src, "history": " ".join(programs[len(programs) // 2][:30])})
@@ -131,8 +142,17 @@ def main(tier, seed):
         if b == "idnkit":
             hk["driver_defs"] = ("VERIF_IDN_ADAPTER",)
         hexes[b] = cx.exe("asan-hist-%s" % b, driver=("drv/hist.c",), **hk)
+    xexes = {}
+    for b in BACKENDS:
+        kw = dict(backend=b, defs=["EAV_EXTRA"])
+        if b != "idn2":
+            kw.update(extra_inc=(SHIM,), extra_objs_srcs=adapter)
+        xexes[b] = cx.exe("asan-extra-%s" % b, **kw)
     addrs = AG.address_corpus(tier, seed, mdl)
     jobs = []
+    sel = addrs[seed % 4::4]
+    for i in range(0, len(sel), 1500):
+        jobs.append((w_records, (xexes, sel[i:i + 1500], mdl.all_bits)))
     for allow in (mdl.default_allow, mdl.all_bits):
         sel = addrs if allow == mdl.default_allow else addrs[::3]
         for i in range(0, len(sel), 1500):
